@@ -56,20 +56,23 @@ func msgNonce(m *message.Message) (uint64, bool) {
 }
 
 // guarded runs f; a panic is reported as "panic".
-func guarded(f func() (*message.Message, error, bool)) (out string, dest uint8) {
+func guarded(t *fpTable, f func() (*message.Message, error, bool)) (out string, dest uint8, fp uint64) {
 	defer func() {
 		if r := recover(); r != nil {
-			out, dest = "panic", 0
+			out, dest, fp = "panic", 0, 0
 		}
 	}()
 	m, err, skipped := f()
 	switch {
 	case skipped:
-		return "skip", 0
+		return "skip", 0, 0
 	case err != nil || m == nil:
-		return "err", 0
+		return "err", 0, 0
 	}
-	return "ok", m.Destination
+	if k, ok := contentKey(m); ok {
+		fp = t.id(k)
+	}
+	return "ok", m.Destination, fp
 }
 
 // =====================================================================================================
@@ -142,7 +145,9 @@ func newEthDepositHandler() *depositHandlers.ETHDepositHandler {
 	return dh
 }
 
-func depositLog(d Dep, nonce uint64, blk uint64) ethTypes.Log {
+// depositLog: the log of deposit d; tx / idx are the hash of its transaction and its index in the
+// block (logs of a chain are pairwise distinct in that, also those of byte-identical deposits).
+func depositLog(d Dep, nonce uint64, blk uint64, tx common.Hash, idx uint) ethTypes.Log {
 	var data []byte
 	if d.Kind == "rawlog" {
 		data = unhex(d.Data)
@@ -162,6 +167,8 @@ func depositLog(d Dep, nonce uint64, blk uint64) ethTypes.Log {
 		Topics:      []common.Hash{evmevents.DepositSig.GetTopic(), common.BytesToHash(common.HexToAddress("0x01").Bytes())},
 		Data:        data,
 		BlockNumber: blk,
+		TxHash:      tx,
+		Index:       idx,
 	}
 }
 
@@ -195,11 +202,15 @@ func (c *evmClient) BlockByNumber(ctx context.Context, n *big.Int) (*ethTypes.Bl
 	return nil, errors.New("no block")
 }
 
-type propStore struct{ st map[uint64]string }
+// propStore: keyed by (destination, nonce) like the real one (the source is the chain's own domain)
+type propStore struct{ st map[[2]uint64]string }
 
 func (p propStore) StorePropStatus(s, d uint8, n uint64, st store.PropStatus) error { return nil }
 func (p propStore) PropStatus(s, d uint8, n uint64) (store.PropStatus, error) {
-	switch p.st[n] {
+	if s != sourceDomain {
+		return store.MissingProp, nil
+	}
+	switch p.st[[2]uint64{uint64(d), n}] {
 	case "executed":
 		return store.ExecutedProp, nil
 	case "pending":
@@ -213,12 +224,12 @@ func (p propStore) PropStatus(s, d uint8, n uint64) (store.PropStatus, error) {
 }
 
 // measureEvm: what the real listener + deposit handler do with this one deposit alone.
-func measureEvm(d Dep, nonce uint64, retry bool) DepObs {
-	out, dest := guarded(func() (*message.Message, error, bool) {
+func measureEvm(t *fpTable, d Dep, nonce uint64, retry bool) DepObs {
+	out, dest, fp := guarded(t, func() (*message.Message, error, bool) {
 		if d.Kind == "otheraddr" && retry {
 			return nil, nil, true
 		}
-		cl := &evmClient{depositLogs: []ethTypes.Log{depositLog(d, nonce, 10)}}
+		cl := &evmClient{depositLogs: []ethTypes.Log{depositLog(d, nonce, 10, common.BigToHash(big.NewInt(0xabc)), 0)}}
 		ds, err := evmevents.NewListener(cl).FetchDeposits(context.Background(), bridgeAddr, big.NewInt(1), big.NewInt(2))
 		if err != nil || len(ds) == 0 {
 			return nil, nil, true
@@ -227,29 +238,37 @@ func measureEvm(d Dep, nonce uint64, retry bool) DepObs {
 		m, err := newEthDepositHandler().HandleDeposit(sourceDomain, x.DestinationDomainID, x.DepositNonce, x.ResourceID, x.Data, x.HandlerResponse, "m", x.Timestamp)
 		return m, err, false
 	})
-	return DepObs{Good: wfEvm(d), Out: out, Dest: dest}
+	return DepObs{Good: wfEvm(d), Out: out, Dest: dest, Fp: fp}
 }
 
 func driveEvm(c Case) Obs {
 	rg := getRig()
 	o := Obs{Deps: make([][]DepObs, len(c.Events))}
 	retry := c.Path == "EvmRetryV1"
-	nonce := uint64(0)
+	fpt := newFpTable()
 	cl := &evmClient{receipts: map[common.Hash]*ethTypes.Receipt{}}
-	ps := propStore{st: map[uint64]string{}}
+	ps := propStore{st: map[[2]uint64]string{}}
 	retryEvent := bridgeABI.Events["Retry"]
+	logIdx := uint(0)
 	for i, e := range c.Events {
 		o.Deps[i] = make([]DepObs, len(e.Deps))
 		var logs []*ethTypes.Log
 		for j, d := range e.Deps {
-			nonce++
+			nonce := d.Nonce
 			if e.Skip {
 				o.Deps[i][j] = DepObs{Out: "skip"}
 				continue
 			}
-			o.Deps[i][j] = measureEvm(d, nonce, retry)
-			ps.st[nonce] = d.Status
-			lg := depositLog(d, nonce, 10)
+			o.Deps[i][j] = measureEvm(fpt, d, nonce, retry)
+			if k := [2]uint64{uint64(d.Dest), nonce}; ps.st[k] == "" {
+				ps.st[k] = d.Status
+			}
+			logIdx++
+			txh := common.BigToHash(big.NewInt(int64(0x1000 + logIdx))) // plain range: one transaction per deposit
+			if retry {
+				txh = common.HexToHash(fmt.Sprintf("0x%064x", i+1)) // the retried transaction
+			}
+			lg := depositLog(d, nonce, 10, txh, logIdx)
 			if retry {
 				logs = append(logs, &lg)
 			} else {
@@ -278,7 +297,7 @@ func driveEvm(c Case) Obs {
 		err = eventHandlers.NewDepositEventHandler(l, dh, bridgeAddr, sourceDomain, ch).HandleEvents(big.NewInt(100), big.NewInt(105))
 	}
 	o.Failed = err != nil
-	consume(&o, ch, sameNonce)
+	consume(&o, ch, sameNonce, fpt)
 	if o.Crashed {
 		return o
 	}
@@ -288,7 +307,7 @@ func driveEvm(c Case) Obs {
 	ch2 := make(chan []*message.Message, 512)
 	_ = eventHandlers.NewRetryV2EventHandler(zerolog.Nop().With(), l, bridgeAddr, sourceDomain, ch2).HandleEvents(big.NewInt(100), big.NewInt(105))
 	if _, ok := rg.routeAll(pushed(rg, ch2)); !ok {
-		o.Crashed, o.Note = true, "Relayer.route did not finish (retry v2)"
+		o.Crashed, o.Stuck, o.Note = true, true, "Relayer.route did not finish (retry v2)"
 	}
 	return o
 }
@@ -374,8 +393,8 @@ func (s *subConn) GetBlockEvents(h types.Hash) ([]*parser.Event, error) {
 func (s *subConn) UpdateMetatdata() error                             { return nil }
 func (s *subConn) FetchEvents(a, b *big.Int) ([]*parser.Event, error) { return s.range_, nil }
 
-func measureSub(d Dep, nonce uint64) DepObs {
-	out, dest := guarded(func() (*message.Message, error, bool) {
+func measureSub(t *fpTable, d Dep, nonce uint64) DepObs {
+	out, dest, fp := guarded(t, func() (*message.Message, error, bool) {
 		ev := subEvent(d, nonce)
 		if ev.Name != "SygmaBridge.Deposit" {
 			return nil, nil, true
@@ -387,7 +406,7 @@ func measureSub(d Dep, nonce uint64) DepObs {
 		m, err := newSubDepositHandler().HandleDeposit(sourceDomain, x.DestDomainID, x.DepositNonce, x.ResourceID, x.CallData, x.TransferType, "m", x.Timestamp)
 		return m, err, false
 	})
-	return DepObs{Good: wfSub(d), Out: out, Dest: dest}
+	return DepObs{Good: wfSub(d), Out: out, Dest: dest, Fp: fp}
 }
 
 func driveSub(c Case) Obs {
@@ -395,17 +414,17 @@ func driveSub(c Case) Obs {
 	o := Obs{Deps: make([][]DepObs, len(c.Events))}
 	retry := c.Path == "SubRetry"
 	conn := &subConn{blocks: map[uint64][]*parser.Event{}}
-	nonce := uint64(0)
+	fpt := newFpTable()
 	for i, e := range c.Events {
 		o.Deps[i] = make([]DepObs, len(e.Deps))
 		var evs []*parser.Event
 		for j, d := range e.Deps {
-			nonce++
+			nonce := d.Nonce
 			if e.Skip {
 				o.Deps[i][j] = DepObs{Out: "skip"}
 				continue
 			}
-			o.Deps[i][j] = measureSub(d, nonce)
+			o.Deps[i][j] = measureSub(fpt, d, nonce)
 			evs = append(evs, subEvent(d, nonce))
 		}
 		if retry {
@@ -432,7 +451,7 @@ func driveSub(c Case) Obs {
 		err = sublistener.NewFungibleTransferEventHandler(zerolog.Nop().With(), sourceDomain, newSubDepositHandler(), ch, conn).HandleEvents(big.NewInt(100), big.NewInt(105))
 	}
 	o.Failed = err != nil
-	consume(&o, ch, sameNonce)
+	consume(&o, ch, sameNonce, fpt)
 	return o
 }
 
@@ -485,10 +504,10 @@ func (c *btcConn) GetBlockVerboseTx(*chainhash.Hash) (*btcjson.GetBlockVerboseTx
 	return &btcjson.GetBlockVerboseTxResult{Height: 100, Tx: c.txs}, nil
 }
 
-func measureBtc(d Dep, idx uint64) DepObs {
+func measureBtc(t *fpTable, d Dep, idx uint64) DepObs {
 	_, good := wfBtc(d)
 	res, feeAddr := btcSetup()
-	out, dest := guarded(func() (*message.Message, error, bool) {
+	out, dest, fp := guarded(t, func() (*message.Message, error, bool) {
 		x, isDep, err := btclistener.DecodeDepositEvent(btcTx(d, idx), res[[32]byte{1}], feeAddr)
 		if err != nil {
 			return nil, err, false
@@ -499,7 +518,7 @@ func measureBtc(d Dep, idx uint64) DepObs {
 		m, err := btclistener.NewBtcDepositHandler().HandleDeposit(sourceDomain, idx, x.ResourceID, x.Amount, x.Data, big.NewInt(100), time.Unix(0, 0))
 		return m, err, false
 	})
-	return DepObs{Good: good, Out: out, Dest: dest}
+	return DepObs{Good: good, Out: out, Dest: dest, Fp: fp}
 }
 
 func driveBtc(c Case) Obs {
@@ -509,17 +528,17 @@ func driveBtc(c Case) Obs {
 	res, feeAddr := btcSetup()
 	ch := make(chan []*message.Message, 512)
 	h := btclistener.NewFungibleTransferEventHandler(zerolog.Nop().With(), sourceDomain, btclistener.NewBtcDepositHandler(), ch, conn, res, feeAddr)
-	idx := uint64(0)
-	back := map[uint64]uint64{} // the real nonce (hash of block number and tx hash) -> index in the case
+	fpt := newFpTable()
+	back := map[uint64]uint64{} // the real nonce (hash of block number and tx hash) -> the transaction's number in the case
 	for i, e := range c.Events {
 		o.Deps[i] = make([]DepObs, len(e.Deps))
 		for j, d := range e.Deps {
-			idx++
+			idx := d.Nonce
 			if e.Skip {
 				o.Deps[i][j] = DepObs{Out: "skip"}
 				continue
 			}
-			o.Deps[i][j] = measureBtc(d, idx)
+			o.Deps[i][j] = measureBtc(fpt, d, idx)
 			tx := btcTx(d, idx)
 			n, _ := h.CalculateNonce(big.NewInt(100), tx.Hash)
 			back[n] = idx
@@ -529,11 +548,12 @@ func driveBtc(c Case) Obs {
 	err := h.HandleEvents(big.NewInt(100))
 	o.Failed = err != nil
 	// an unknown nonce maps to 0, which no deposit has
-	consume(&o, ch, func(n uint64) uint64 { return back[n] })
+	consume(&o, ch, func(n uint64) uint64 { return back[n] }, fpt)
 	return o
 }
 
 func drive(c Case) Obs {
+	c = normalise(c)
 	switch c.Path {
 	case "EvmDeposits", "EvmRetryV1":
 		return driveEvm(c)
